@@ -577,7 +577,7 @@ Lemma dns_process_cases : forall cfg s dp pkt s',
   exists txid rcode qs',
     dns_header_ok pkt txid /\ wdns_rcode pkt = Ok rcode /\
     dns_process_slots cfg pkt dp txid rcode (ds_queries s) = Ok qs' /\
-    s' = mkSock (ds_servers s) qs' (ds_owned s).
+    s' = mkSock (ds_servers s) qs' (ds_owned s) (ds_hop_limit s).
 Proof.
   intros cfg s dp pkt s' H. unfold dns_process in H.
   destruct (wdns_check_len pkt) as [[]|e|] eqn:CL; try discriminate.
@@ -842,6 +842,7 @@ Definition ev_ok (ev : dns_event) : Prop :=
   | EvRsp _ _ _ pkt => Forall wdns_is_byte pkt
   | EvQuery name _ _ _ => Forall wdns_is_byte name
   | EvQueryRaw raw _ _ _ _ => Forall wdns_is_byte raw
+  | EvHop (Some h) => 0 <= h <= 255
   | _ => True
   end.
 
@@ -855,7 +856,8 @@ Lemma dns_step_completed : forall cfg s ev h addrs,
     ev = EvRsp src sp dp pkt /\ nth_error (ds_queries s) h = Some (Some (QPending pq)) /\
     dns_response_matches cfg s pq src sp dp pkt addrs.
 Proof.
-  intros cfg s ev h addrs Hev H. destruct ev as [name t txid port|raw t m txid port|i|i|now|src sp dp pkt]; cbn [dns_step] in H.
+  intros cfg s ev h addrs Hev H. destruct ev as [name t txid port|raw t m txid port|i|i|now|src sp dp pkt|l|hl]; cbn [dns_step] in H;
+    [| | | | | |left; exact H|left; unfold dns_set_hop_limit in H; destruct hl as [v|]; [destruct (v =? 0)|]; exact H].
   - left. destruct (dns_start_query cfg s name t txid port) as [s' r] eqn:E. eapply dns_start_query_completed; eauto.
   - left. destruct (dns_start_query_raw cfg s raw t m txid port) as [s' r] eqn:E. eapply dns_start_query_raw_completed; eauto.
   - left. destruct (dns_get_query_result s i) as [s' r] eqn:E. eapply dns_get_query_result_completed; eauto.
@@ -1130,15 +1132,15 @@ Proof.
   rewrite IH. destruct (dns_dispatch_slots cfg servers now true rest) as [[a' b']| |]; reflexivity.
 Qed.
 
-Lemma dns_poll_go_spec : forall cfg fuel servers owned now pre rest acc,
+Lemma dns_poll_go_spec : forall cfg fuel servers owned hop now pre rest acc,
   cfg_ok cfg -> Forall (slot_ok cfg) pre -> Forall (slot_ok cfg) rest ->
   (length rest < fuel)%nat ->
   exists txs,
-    dns_poll_go cfg fuel (mkSock servers (map (dns_done_slot cfg servers now) pre ++ rest) owned) now acc =
-    Ok (mkSock servers (map (dns_done_slot cfg servers now) (pre ++ rest)) owned, txs, false).
+    dns_poll_go cfg fuel (mkSock servers (map (dns_done_slot cfg servers now) pre ++ rest) owned hop) now acc =
+    Ok (mkSock servers (map (dns_done_slot cfg servers now) (pre ++ rest)) owned hop, txs, false).
 Proof.
-  induction fuel as [|fuel IH]; intros servers owned now pre rest acc Hc Hp Hr Hf; [lia|].
-  cbn [dns_poll_go]. unfold dns_dispatch. cbn [ds_servers ds_queries ds_owned].
+  induction fuel as [|fuel IH]; intros servers owned hop now pre rest acc Hc Hp Hr Hf; [lia|].
+  cbn [dns_poll_go]. unfold dns_dispatch. cbn [ds_servers ds_queries ds_owned ds_hop_limit].
   rewrite dns_dispatch_slots_done_prefix by assumption.
   destruct (dns_dispatch_slots_fresh cfg servers now rest Hc Hr) as (rest' & res & E & C).
   rewrite E. cbn [obind].
@@ -1146,7 +1148,7 @@ Proof.
   - eexists. rewrite map_app. reflexivity.
   - apply Forall_app in Hr. destruct Hr as [Hra Hrb].
     rewrite app_assoc. rewrite <- map_app.
-    destruct (IH servers owned now (pre ++ a) b (acc ++ [tx]) Hc) as (txs & Et); auto.
+    destruct (IH servers owned hop now (pre ++ a) b (acc ++ [tx]) Hc) as (txs & Et); auto.
     { apply Forall_app; split; assumption. }
     { rewrite app_length in Hf. destruct a; [congruence|]. simpl in Hf. lia. }
     rewrite Et. rewrite <- app_assoc. eauto.
@@ -1158,10 +1160,10 @@ Lemma dns_poll_spec : forall cfg s now,
   cfg_ok cfg -> sock_ok cfg s ->
   exists txs,
     dns_poll cfg s now =
-    Ok (mkSock (ds_servers s) (map (dns_done_slot cfg (ds_servers s) now) (ds_queries s)) (ds_owned s), txs, false).
+    Ok (mkSock (ds_servers s) (map (dns_done_slot cfg (ds_servers s) now) (ds_queries s)) (ds_owned s) (ds_hop_limit s), txs, false).
 Proof.
   intros cfg s now Hc Hs. unfold dns_poll.
-  destruct (dns_poll_go_spec cfg (S (length (ds_queries s))) (ds_servers s) (ds_owned s) now [] (ds_queries s) [] Hc)
+  destruct (dns_poll_go_spec cfg (S (length (ds_queries s))) (ds_servers s) (ds_owned s) (ds_hop_limit s) now [] (ds_queries s) [] Hc)
     as (txs & E); auto.
   destruct s; cbn in *. eauto.
 Qed.
@@ -1238,9 +1240,13 @@ Qed.
 
 Lemma dns_step_sock_ok : forall cfg s ev,
   cfg_ok cfg -> sock_ok cfg s -> ev_ok ev ->
-  sock_ok cfg (fst (dns_step cfg s ev)) /\ ds_servers (fst (dns_step cfg s ev)) = ds_servers s.
+  sock_ok cfg (fst (dns_step cfg s ev)) /\
+  ds_servers (fst (dns_step cfg s ev)) =
+  match ev with EvServers l => dns_truncate_servers cfg l | _ => ds_servers s end.
 Proof.
-  intros cfg s ev Hc Hs Hev. destruct ev as [name t txid port|raw t m txid port|i|i|now|src sp dp pkt]; cbn [dns_step].
+  intros cfg s ev Hc Hs Hev. destruct ev as [name t txid port|raw t m txid port|i|i|now|src sp dp pkt|l|hl]; cbn [dns_step];
+    [| | | | | |split; [exact Hs|reflexivity]
+     |unfold dns_set_hop_limit; destruct hl as [v|]; [destruct (v =? 0)|]; cbn; (split; [exact Hs|reflexivity])].
   - destruct (dns_start_query cfg s name t txid port) as [s' r] eqn:E. cbn [fst].
     unfold dns_start_query in E. destruct name as [|c name]; [inv E; auto|].
     set (nm := if last (c :: name) 0 =? 46 then removelast (c :: name) else c :: name) in E.
@@ -1339,7 +1345,8 @@ Qed.
 (* --- query_terminates --- *)
 
 (* events that do not answer the query in slot h: datagrams to another port or with another id,
-   and no get/cancel of that slot (a result taken from the slot frees it for reuse) *)
+   and no get/cancel of that slot (a result taken from the slot frees it for reuse).
+   update_servers and set_hop_limit are allowed at any point. *)
 Definition ev_quiet (h : nat) (port txid : Z) (ev : dns_event) : Prop :=
   match ev with
   | EvRsp _ _ dp pkt => dp <> port \/ wdns_transaction_id pkt <> Ok txid
@@ -1371,7 +1378,20 @@ Fixpoint dns_ghost (t0 : option Z) (now : Z) (evs : list dns_event) : option Z *
   | _ :: r => dns_ghost t0 now r
   end.
 
-Definition slot_timer_inv (n port txid : Z) (mdns : bool) (t0 : option Z) (now : Z)
+(* number of servers the query may be sent to: the two mDNS groups, or the configured list *)
+Definition dns_nsrv (mdns : bool) (servers : list (list Z)) : Z :=
+  Z.of_nat (length (if mdns then [dns_MDNS_IPV6_ADDR; dns_MDNS_IPV4_ADDR] else servers)).
+
+(* every server list installed by update_servers during the run has at most N entries *)
+Definition dns_servers_le (cfg : dns_cfg) (mdns : bool) (N : Z) (ev : dns_event) : Prop :=
+  match ev with
+  | EvServers l => dns_nsrv mdns (dns_truncate_servers cfg l) <= N
+  | _ => True
+  end.
+
+(* [N] bounds the length of every server list in force during the run; the server index of a
+   pending query stays below it after every poll, whatever update_servers did in between *)
+Definition slot_timer_inv (N port txid : Z) (mdns : bool) (t0 : option Z) (now : Z)
            (o : option (option dns_qstate)) : Prop :=
   o = Some (Some QFailure) \/
   exists pq, o = Some (Some (QPending pq)) /\ pq_port pq = port /\ pq_txid pq = txid /\ pq_mdns pq = mdns /\
@@ -1379,7 +1399,7 @@ Definition slot_timer_inv (n port txid : Z) (mdns : bool) (t0 : option Z) (now :
     | None => pq_timeout_at pq = None /\ pq_server_idx pq = 0
     | Some t0 => exists T, pq_timeout_at pq = Some T /\ now < T /\
                            T <= t0 + (pq_server_idx pq + 1) * dns_RETRANSMIT_TIMEOUT /\
-                           0 <= pq_server_idx pq < n
+                           0 <= pq_server_idx pq < N
     end.
 
 Lemma dns_find_none_spec : forall qs k i, dns_find_none qs k = Some i -> (k <= i)%nat /\ nth_error qs (i - k) = Some None.
@@ -1421,6 +1441,15 @@ Proof.
   eapply dns_start_query_raw_other; eauto.
 Qed.
 
+(* update_servers and set_hop_limit do not touch the query slots *)
+Lemma dns_step_servers_hop_queries : forall cfg s ev,
+  (match ev with EvServers _ | EvHop _ => True | _ => False end) ->
+  ds_queries (fst (dns_step cfg s ev)) = ds_queries s.
+Proof.
+  intros cfg s ev H. destruct ev as [| | | | | |l|hl]; try contradiction; cbn [dns_step]; [reflexivity|].
+  unfold dns_set_hop_limit. destruct hl as [v|]; [destruct (v =? 0)|]; reflexivity.
+Qed.
+
 (* a quiet non-poll event leaves a used slot h as it is *)
 Lemma dns_step_quiet_unchanged : forall cfg s ev h x port txid,
   ev_quiet h port txid ev ->
@@ -1431,7 +1460,9 @@ Lemma dns_step_quiet_unchanged : forall cfg s ev h x port txid,
   nth_error (ds_queries (fst (dns_step cfg s ev))) h = Some (Some x).
 Proof.
   intros cfg s ev h x port txid Hq Hnp Hh Hpt Hx.
-  destruct ev as [name t tx pt|raw t m tx pt|i|i|now|src sp dp pkt]; cbn [dns_step]; try contradiction.
+  destruct ev as [name t tx pt|raw t m tx pt|i|i|now|src sp dp pkt|l|hl];
+    try (rewrite dns_step_servers_hop_queries; [exact Hh|exact I]);
+    cbn [dns_step]; try contradiction.
   - destruct (dns_start_query cfg s name t tx pt) as [s' r] eqn:E. eapply dns_start_query_other; eauto.
   - destruct (dns_start_query_raw cfg s raw t m tx pt) as [s' r] eqn:E. eapply dns_start_query_raw_other; eauto.
   - cbn in Hq. destruct (dns_get_query_result s i) as [s' r] eqn:E. cbn [fst]. unfold dns_get_query_result in E.
@@ -1453,16 +1484,16 @@ Qed.
 Lemma nth_error_map_some : forall A B (f : A -> B) l h x, nth_error l h = Some x -> nth_error (map f l) h = Some (f x).
 Proof. intros. rewrite nth_error_map. rewrite H. reflexivity. Qed.
 
-(* one poll keeps the timer invariant *)
-Lemma dns_poll_timer_inv : forall cfg s t now t0 h port txid (mdns : bool),
+(* one poll keeps the timer invariant, for whatever server list (of at most N entries) is in force *)
+Lemma dns_poll_timer_inv : forall cfg s t now t0 h port txid (mdns : bool) N,
   cfg_ok cfg -> sock_ok cfg s ->
-  let n := Z.of_nat (length (if mdns then [dns_MDNS_IPV6_ADDR; dns_MDNS_IPV4_ADDR] else ds_servers s)) in
-  slot_timer_inv n port txid mdns t0 now (nth_error (ds_queries s) h) ->
+  dns_nsrv mdns (ds_servers s) <= N ->
+  slot_timer_inv N port txid mdns t0 now (nth_error (ds_queries s) h) ->
   now <= t -> (forall d, dns_poll_at s = Some d -> t <= Z.max d now) ->
-  slot_timer_inv n port txid mdns (match t0 with None => Some t | Some _ => t0 end) t
+  slot_timer_inv N port txid mdns (match t0 with None => Some t | Some _ => t0 end) t
                  (nth_error (ds_queries (fst (dns_step cfg s (EvPoll t)))) h).
 Proof.
-  intros cfg s t now t0 h port txid mdns Hc Hs n K Hnow Hsched.
+  intros cfg s t now t0 h port txid mdns N Hc Hs HN K Hnow Hsched.
   pose proof dns_consts_pos as (P1 & P2 & P3).
   cbn [dns_step]. destruct (dns_poll_spec cfg s t Hc Hs) as (txs & E). rewrite E. cbn [fst ds_queries].
   destruct K as [K|(pq & K1 & K2 & K3 & K4 & K5)].
@@ -1471,14 +1502,14 @@ Proof.
   assert (Hq : pq_ok cfg pq).
   { unfold sock_ok in Hs. rewrite Forall_forall in Hs. apply (Hs (Some (QPending pq))). eapply nth_error_In; eauto. }
   destruct (dns_dispatch_query_spec cfg (ds_servers s) t pq Hc Hq) as (r & Er & C). rewrite Er.
-  assert (Esrv : Z.of_nat (length (dns_eff_servers (ds_servers s) pq)) = n).
-  { unfold n, dns_eff_servers. rewrite K4. reflexivity. }
-  rewrite Esrv in C.
+  assert (Esrv : Z.of_nat (length (dns_eff_servers (ds_servers s) pq)) = dns_nsrv mdns (ds_servers s)).
+  { unfold dns_nsrv, dns_eff_servers. rewrite K4. reflexivity. }
+  rewrite Esrv in C. set (n := dns_nsrv mdns (ds_servers s)) in *.
   (* the timer fields after the timeout check *)
   assert (P2inv : pq_server_idx (dns_pq2 t pq) < n ->
     exists T, pq_timeout_at (dns_pq2 t pq) = Some T /\ t < T /\
       T <= match t0 with None => t | Some t0 => t0 end + (pq_server_idx (dns_pq2 t pq) + 1) * dns_RETRANSMIT_TIMEOUT /\
-      0 <= pq_server_idx (dns_pq2 t pq) < n).
+      0 <= pq_server_idx (dns_pq2 t pq) < N).
   { intros Hidx. unfold dns_pq2 in *. destruct t0 as [t0|].
     - destruct K5 as (T & T1 & T2 & T3 & T4 & T5). rewrite T1 in *.
       assert (t <= T).
@@ -1502,32 +1533,35 @@ Proof.
     destruct (P2inv C1) as (T & A1 & A2 & A3 & A4). unfold dns_pq_sent. cbn. destruct t0; eexists; eauto.
 Qed.
 
-(* the invariant along a whole schedule *)
-Lemma dns_sched_timer_inv : forall cfg h port txid (mdns : bool) evs s now t0,
+(* the invariant along a whole schedule, with update_servers / set_hop_limit interleaved *)
+Lemma dns_sched_timer_inv : forall cfg h port txid (mdns : bool) N evs s now t0,
   cfg_ok cfg -> sock_ok cfg s ->
-  let n := Z.of_nat (length (if mdns then [dns_MDNS_IPV6_ADDR; dns_MDNS_IPV4_ADDR] else ds_servers s)) in
-  slot_timer_inv n port txid mdns t0 now (nth_error (ds_queries s) h) ->
+  dns_nsrv mdns (ds_servers s) <= N ->
+  Forall (dns_servers_le cfg mdns N) evs ->
+  slot_timer_inv N port txid mdns t0 now (nth_error (ds_queries s) h) ->
   dns_sched cfg h port txid s now evs ->
-  slot_timer_inv n port txid mdns (fst (dns_ghost t0 now evs)) (snd (dns_ghost t0 now evs))
+  slot_timer_inv N port txid mdns (fst (dns_ghost t0 now evs)) (snd (dns_ghost t0 now evs))
                  (nth_error (ds_queries (dns_run cfg s evs)) h).
 Proof.
-  induction evs as [|ev evs IH]; intros s now t0 Hc Hs n K Hsch; cbn [dns_run dns_ghost dns_sched] in *.
+  induction evs as [|ev evs IH]; intros s now t0 Hc Hs HN HL K Hsch; cbn [dns_run dns_ghost dns_sched] in *.
   { exact K. }
   destruct Hsch as (Hev & Hq & Hp & Hrest).
+  assert (HLev : dns_servers_le cfg mdns N ev) by (inv HL; assumption).
+  assert (HL' : Forall (dns_servers_le cfg mdns N) evs) by (inv HL; assumption).
   destruct (dns_step_sock_ok cfg s ev Hc Hs Hev) as [Hs' Hsrv].
-  assert (Hn : Z.of_nat (length (if mdns then [dns_MDNS_IPV6_ADDR; dns_MDNS_IPV4_ADDR] else ds_servers (fst (dns_step cfg s ev)))) = n)
-    by (unfold n; rewrite Hsrv; reflexivity).
+  assert (HN' : dns_nsrv mdns (ds_servers (fst (dns_step cfg s ev))) <= N).
+  { rewrite Hsrv. destruct ev; try exact HN. exact HLev. }
   assert (Other : (match ev with EvPoll _ => False | _ => True end) ->
-                  slot_timer_inv n port txid mdns t0 now (nth_error (ds_queries (fst (dns_step cfg s ev))) h)).
+                  slot_timer_inv N port txid mdns t0 now (nth_error (ds_queries (fst (dns_step cfg s ev))) h)).
   { intros Hnp. destruct K as [K|(pq & K1 & K2 & K3 & K4 & K5)].
     - left. apply (dns_step_quiet_unchanged cfg s ev h QFailure port txid Hq Hnp K); [intros; discriminate|left; reflexivity].
     - right. exists pq. split; [|auto].
       apply (dns_step_quiet_unchanged cfg s ev h (QPending pq) port txid Hq Hnp K1); [intros p Ep; inv Ep; auto|right; eauto]. }
-  destruct ev as [name t tx pt|raw t m tx pt|i|i|t|src sp dp pkt];
-    try (specialize (IH _ now t0 Hc Hs'); rewrite Hn in IH; apply IH; [apply Other; exact I|exact Hrest]).
+  destruct ev as [name t tx pt|raw t m tx pt|i|i|t|src sp dp pkt|l|hl];
+    try (apply (IH _ now t0 Hc Hs' HN' HL'); [apply Other; exact I|exact Hrest]).
   destruct Hp as [Hp1 Hp2].
-  specialize (IH _ t (match t0 with None => Some t | Some _ => t0 end) Hc Hs'). rewrite Hn in IH.
-  apply IH; [|exact Hrest]. eapply dns_poll_timer_inv; eauto.
+  apply (IH _ t (match t0 with None => Some t | Some _ => t0 end) Hc Hs' HN' HL'); [|exact Hrest].
+  eapply dns_poll_timer_inv; eauto.
 Qed.
 
 (* what start_query leaves in the slot it returns *)
@@ -1562,27 +1596,106 @@ Proof.
   do 2 eexists. eapply dns_start_query_raw_fresh; eauto.
 Qed.
 
-(* query_terminates: a started query, no answering datagram, polls no later than poll_at says:
-   by the time of the first poll + (number of servers) * RETRANSMIT_TIMEOUT the query has failed *)
-Lemma dns_query_terminates : forall cfg evs s now0 h pq t0 t_last,
+(* query_terminates: a started query, no answering datagram, polls no later than poll_at says,
+   update_servers / set_hop_limit at any time: with N a bound on the length of every server list
+   in force, the query has failed by the first poll + N * RETRANSMIT_TIMEOUT *)
+Lemma dns_query_terminates : forall cfg evs s now0 h pq N t0 t_last,
   cfg_ok cfg -> sock_ok cfg s ->
+  nth_error (ds_queries s) h = Some (Some (QPending pq)) ->
+  pq_timeout_at pq = None -> pq_server_idx pq = 0 ->
+  dns_nsrv (pq_mdns pq) (ds_servers s) <= N ->
+  Forall (dns_servers_le cfg (pq_mdns pq) N) evs ->
+  dns_sched cfg h (pq_port pq) (pq_txid pq) s now0 evs ->
+  dns_ghost None now0 evs = (Some t0, t_last) ->
+  t0 + N * dns_RETRANSMIT_TIMEOUT <= t_last ->
+  nth_error (ds_queries (dns_run cfg s evs)) h = Some (Some QFailure).
+Proof.
+  intros cfg evs s now0 h pq N t0 t_last Hc Hs Hh Ht Hi HN HL Hsch Hg Hb.
+  pose proof dns_consts_pos as (P1 & P2 & P3).
+  pose proof (dns_sched_timer_inv cfg h (pq_port pq) (pq_txid pq) (pq_mdns pq) N evs s now0 None Hc Hs HN HL) as K.
+  rewrite Hg in K. cbn [fst snd] in K.
+  destruct K as [K|(pq' & K1 & K2 & K3 & K4 & T & T1 & T2 & T3 & T4)]; auto.
+  { right. exists pq. rewrite Hh. repeat split; auto. }
+  exfalso. nia.
+Qed.
+
+(* the server list is truncated to DNS_MAX_SERVER_COUNT by new / update_servers, so N can be taken
+   from the configuration: 2 for a .local name, DNS_MAX_SERVER_COUNT otherwise *)
+Lemma dns_truncate_servers_le : forall cfg l,
+  0 <= c_max_servers cfg -> Z.of_nat (length (dns_truncate_servers cfg l)) <= c_max_servers cfg.
+Proof. intros. unfold dns_truncate_servers. rewrite firstn_length. lia. Qed.
+
+Definition dns_max_nsrv (cfg : dns_cfg) (mdns : bool) : Z := if mdns then 2 else c_max_servers cfg.
+
+Lemma dns_query_terminates_any_servers : forall cfg evs s now0 h pq t0 t_last,
+  cfg_ok cfg -> sock_ok cfg s -> 0 <= c_max_servers cfg ->
+  Z.of_nat (length (ds_servers s)) <= c_max_servers cfg ->
   nth_error (ds_queries s) h = Some (Some (QPending pq)) ->
   pq_timeout_at pq = None -> pq_server_idx pq = 0 ->
   dns_sched cfg h (pq_port pq) (pq_txid pq) s now0 evs ->
   dns_ghost None now0 evs = (Some t0, t_last) ->
-  t0 + Z.of_nat (length (dns_eff_servers (ds_servers s) pq)) * dns_RETRANSMIT_TIMEOUT <= t_last ->
+  t0 + dns_max_nsrv cfg (pq_mdns pq) * dns_RETRANSMIT_TIMEOUT <= t_last ->
   nth_error (ds_queries (dns_run cfg s evs)) h = Some (Some QFailure).
 Proof.
-  intros cfg evs s now0 h pq t0 t_last Hc Hs Hh Ht Hi Hsch Hg Hb.
-  pose proof dns_consts_pos as (P1 & P2 & P3).
-  pose proof (dns_sched_timer_inv cfg h (pq_port pq) (pq_txid pq) (pq_mdns pq) evs s now0 None Hc Hs) as K.
-  cbv zeta in K. rewrite Hg in K. cbn [fst snd] in K.
-  destruct K as [K|(pq' & K1 & K2 & K3 & K4 & T & T1 & T2 & T3 & T4)]; auto.
-  { right. exists pq. rewrite Hh. repeat split; auto. }
-  exfalso. unfold dns_eff_servers in Hb.
-  set (n := Z.of_nat (length (if pq_mdns pq then [dns_MDNS_IPV6_ADDR; dns_MDNS_IPV4_ADDR] else ds_servers s))) in *.
-  nia.
+  intros cfg evs s now0 h pq t0 t_last Hc Hs Hm Hl Hh Ht Hi Hsch Hg Hb.
+  eapply dns_query_terminates; eauto.
+  - unfold dns_nsrv, dns_max_nsrv. destruct (pq_mdns pq); [cbn; lia|exact Hl].
+  - apply Forall_forall. intros ev _. destruct ev; cbn; auto.
+    unfold dns_nsrv, dns_max_nsrv. destruct (pq_mdns pq); [cbn; lia|apply dns_truncate_servers_le; assumption].
 Qed.
+
+(* --- hop limit: legal (1..255) in every reachable state, hence on every transmitted query --- *)
+Definition hop_ok (s : dns_sock) : Prop :=
+  match ds_hop_limit s with Some h => 1 <= h <= 255 | None => True end.
+
+Lemma dns_step_hop_ok : forall cfg s ev, ev_ok ev -> hop_ok s -> hop_ok (fst (dns_step cfg s ev)).
+Proof.
+  intros cfg s ev Hev Hh. unfold hop_ok in *.
+  destruct ev as [name t tx pt|raw t m tx pt|i|i|now|src sp dp pkt|l|hl]; cbn [dns_step].
+  - destruct (dns_start_query cfg s name t tx pt) as [s' r] eqn:E. cbn [fst]. unfold dns_start_query in E.
+    destruct name; [inv E; exact Hh|]. destruct (dns_encode_labels _ _ _); try (inv E; exact Hh).
+    destruct (dns_vec_push _ _ _); [|inv E; exact Hh].
+    unfold dns_start_query_raw, dns_find_free_query in E.
+    destruct (dns_find_none _ _); [|destruct (ds_owned s)]; try destruct (_ >? _); inv E; exact Hh.
+  - destruct (dns_start_query_raw cfg s raw t m tx pt) as [s' r] eqn:E. cbn [fst].
+    unfold dns_start_query_raw, dns_find_free_query in E.
+    destruct (dns_find_none _ _); [|destruct (ds_owned s)]; try destruct (_ >? _); inv E; exact Hh.
+  - destruct (dns_get_query_result s i) as [s' r] eqn:E. cbn [fst]. unfold dns_get_query_result in E.
+    destruct (nth_error _ _) as [[[?|?|]|]|]; inv E; exact Hh.
+  - destruct (dns_cancel_query s i) as [s' r] eqn:E. cbn [fst]. unfold dns_cancel_query in E.
+    destruct (nth_error _ _) as [[?|]|]; inv E; exact Hh.
+  - destruct (dns_poll cfg s now) as [[[s' txs] hang]| |] eqn:E; cbn [fst]; auto.
+    unfold dns_poll in E. revert E. generalize (@nil dns_tx). generalize (S (length (ds_queries s))).
+    intros fuel. revert s Hh. induction fuel as [|fuel IH]; intros s Hh acc E; cbn [dns_poll_go] in E.
+    { inv E. exact Hh. }
+    unfold dns_dispatch in E.
+    destruct (dns_dispatch_slots cfg (ds_servers s) now true (ds_queries s)) as [[qs res]| |]; cbn [obind] in E; try discriminate.
+    destruct res; [inv E; exact Hh| |inv E; exact Hh]. eapply IH; [|exact E]. exact Hh.
+  - destruct (dns_ingress cfg s src sp dp pkt) as [[s' acc]| |] eqn:E; cbn [fst]; auto.
+    unfold dns_ingress in E. destruct (dns_accepts s src sp); [|inv E; exact Hh].
+    destruct (dns_process cfg s dp pkt) as [s1| |] eqn:Ep; cbn [obind] in E; inv E.
+    destruct (dns_process_cases _ _ _ _ _ Ep) as [->|(a & b & c & _ & _ & _ & ->)]; exact Hh.
+  - exact Hh.
+  - unfold dns_set_hop_limit. destruct hl as [v|]; [|exact I].
+    destruct (v =? 0) eqn:E0; [exact Hh|]. cbn. apply Z.eqb_neq in E0. cbn in Hev. lia.
+Qed.
+
+Lemma dns_reachable_hop_legal : forall cfg servers n owned evs,
+  Forall ev_ok evs ->
+  1 <= dns_tx_hop (dns_run cfg (dns_new cfg servers n owned) evs) <= 255.
+Proof.
+  intros cfg servers n owned evs Hev.
+  assert (H : hop_ok (dns_run cfg (dns_new cfg servers n owned) evs)).
+  { assert (G : forall evs s, Forall ev_ok evs -> hop_ok s -> hop_ok (dns_run cfg s evs)).
+    { induction evs0 as [|ev evs0 IH]; intros s He Hs; cbn [dns_run]; auto.
+      inv He. apply IH; auto. apply dns_step_hop_ok; auto. }
+    apply G; auto. exact I. }
+  unfold hop_ok, dns_tx_hop in *. destruct (ds_hop_limit _); lia.
+Qed.
+
+(* set_hop_limit(Some(0)) panics and stores nothing *)
+Lemma dns_set_hop_limit_zero : forall s, dns_set_hop_limit s (Some 0) = (s, Panic).
+Proof. reflexivity. Qed.
 
 (* ====================================================================================== *)
 (* Part F: summaries used by Props/C19.v and non-vacuity examples                          *)
@@ -1611,7 +1724,7 @@ Lemma dns_step_total : forall cfg s ev,
   end.
 Proof.
   intros cfg s ev Hc Hs Hev. split; [apply dns_step_sock_ok; assumption|].
-  destruct ev as [name t tx pt|raw t m tx pt|i|i|now|src sp dp pkt]; auto; cbn [dns_step].
+  destruct ev as [name t tx pt|raw t m tx pt|i|i|now|src sp dp pkt|l|hl]; auto; cbn [dns_step].
   - destruct (dns_poll_spec cfg s now Hc Hs) as (txs & E). rewrite E. cbn. eauto.
   - destruct Hc as [Hc1 _]. destruct (dns_ingress_total cfg s src sp dp pkt Hc1 Hs Hev) as (s' & acc & E & _).
     rewrite E. cbn. eauto.
@@ -1693,4 +1806,26 @@ Lemma dns_constants :
 Proof.
   split; [reflexivity|]. split; [reflexivity|]. split; [reflexivity|]. split; [reflexivity|]. split; [reflexivity|].
   split; [reflexivity|]. split; [reflexivity|]. split; [exact dns_cfg_default_ok|]. split; vm_compute; discriminate.
+Qed.
+
+(* update_servers / set_hop_limit while a query is pending *)
+Lemma c19_example_servers :
+  (* the list becomes empty: the pending query fails at the next dispatch *)
+  nth_error (ds_queries (dns_run c19_cfg c19_started [EvServers []; EvPoll 1000000])) 0 = Some (Some QFailure) /\
+  (* another server: the query goes on, same timers, to the new server (index 0), hop limit 64 *)
+  (exists pl, snd (dns_step c19_cfg (dns_run c19_cfg c19_started [EvServers [[10; 0; 0; 11]]]) (EvPoll 1000000))
+              = ObPoll [mkTx [10; 0; 0; 11] 50000 53 pl] false) /\
+  dns_run_obs c19_cfg c19_started [EvServers [[10; 0; 0; 11]]; EvPoll 1000000; EvPoll 3000000; EvPoll 7000000; EvPoll 10000000]
+    = [Some 1000000; Some 3000000; Some 7000000; Some 10000000; None] /\
+  (* answers of the replaced server are no longer accepted *)
+  dns_run c19_cfg c19_started [EvServers [[10; 0; 0; 11]]; EvRsp c19_server 53 50000 wdns_example_response]
+    = dns_run c19_cfg c19_started [EvServers [[10; 0; 0; 11]]] /\
+  (* more servers than DNS_MAX_SERVER_COUNT: truncated *)
+  ds_servers (dns_run c19_cfg c19_started [EvServers [[10; 0; 0; 11]; [10; 0; 0; 12]]]) = [[10; 0; 0; 11]] /\
+  (* hop limit 0 is refused with a panic and nothing is stored; 7 is used for the next datagrams *)
+  dns_step c19_cfg c19_started (EvHop (Some 0)) = (c19_started, ObHop Panic) /\
+  dns_tx_hop c19_started = 64 /\
+  dns_tx_hop (dns_run c19_cfg c19_started [EvHop (Some 7)]) = 7.
+Proof.
+  vm_compute. repeat split; try reflexivity. eexists. reflexivity.
 Qed.
